@@ -19,7 +19,7 @@ CHECK = {'title': 'hwmon entries bind to the device the user named, or fail clea
          '1-based position among the chip\'s fans / temperature inputs with an input file; RPM from the rpm channel, PWM and enable from the pwm channel, '
          'default = rpm channel): the registered HwMonFan/HwmonSensor carries exactly these paths and GetRpm/GetPwm/GetValue return the values stored in '
          'those files; identical outcome for every enumeration order; a non-existing device gives an error naming the entry id - no panic, no binding. '
-         'distinct_nontrivial = (tree, order, entry) triples with more than one chip or an existing device. The one-entry-per-chip configuration additionally has, for chips with two fans, an earlier entry for the same fan with an explicit different pwmChannel; platform strings that do not compile as regular expressions must fail cleanly; wide chips with two-digit fan channels ({1,2,10,11,12}, {2,10,11}).',
+         'distinct_nontrivial = (tree, order, entry) triples with more than one chip or an existing device. The one-entry-per-chip configuration additionally has, for chips with two fans, an earlier entry for the same fan with an explicit different pwmChannel; platform strings that do not compile as regular expressions must fail cleanly; wide chips with two-digit fan channels ({1,2,10,11,12}, {2,10,11}). Platform patterns additionally use upper-case escape classes (the first dash of the chip name written as \\D, anchored form with \\W). The bus-family run binds every entry twice in one process without reloading the configuration (both bindings must agree) and has a family of chips whose names are prefixes of each other (hid-3-1, hid-3-10, ...), named by anchored patterns.',
  'assumptions': ['gosensors stand-in reproduces libsensors feature order (fans by channel, temps by number) and serves chips in the order of the spec; '
                  'platform strings are those hwmon.computeIdentifier derives (nct6798-isa-0290, it8620-isa-0a30, coretemp-isa-0000, amdgpu-pci-0300)',
                  'the platform pattern of an entry matches exactly one chip (or none): the property does not define the result for ambiguous patterns',
